@@ -487,8 +487,12 @@ const newID = "\x00NEW" // placeholder id for an item a command creates
 
 // Predict judges command c against the current model state.
 func (m *Model) Predict(c Cmd) Pred {
-	if c.Raw != nil && c.Plan == nil && c.Op == "plan" {
-		return fail("C11", "unparseable / invalid raw plan document")
+	if c.RawBad {
+		prop := "C10"
+		if c.Op == "plan" {
+			prop = "C11"
+		}
+		return fail(prop, "stdin is not a single well-formed JSON object with known keys")
 	}
 	switch c.Op {
 	case "init", "compact", "where", "quickstart":
@@ -763,9 +767,6 @@ func (m *Model) epicRule(ref *string, flagsMode bool) (Outcome, string, string, 
 }
 
 func (m *Model) predictNew(c Cmd, isEpic bool) Pred {
-	if c.Raw != nil && c.Title == nil {
-		return fail("C10", "invalid raw input")
-	}
 	cls, why, title, body := newTextRule(c)
 	if cls == MustFail {
 		return fail("C10", why)
@@ -836,9 +837,6 @@ func (m *Model) predictNew(c Cmd, isEpic bool) Pred {
 
 func (m *Model) predictSet(c Cmd) Pred {
 	id := m.Resolve(c.ID)
-	if c.Raw != nil && c.Title == nil && c.Body == nil && c.Epic == nil && c.State == nil && c.Claim == nil && c.RPath == nil && c.RSum == nil {
-		return fail("C10", "invalid raw input")
-	}
 	flagsMode := c.Mode == "flags" || c.Mode == "bodystdin"
 	title, body, epicRef, st, cl, rp, rs := c.Title, c.Body, c.Epic, c.State, c.Claim, c.RPath, c.RSum
 	class := MustOK
